@@ -168,7 +168,7 @@ CHECKS = {
    text="Five theorems for every sampler, target and event stream: P=k*t proposals store exactly k columns; column j is the state after proposal j*t of "
         "the unthinned run; thinning changes neither chain nor decisions; every stored misfit is the target's misfit of the stored state. Tie: complete "
         "runs on both back ends read back through hmclab.Samples, compared bit-exactly with the model and with per-proposal snapshots, the unthinned "
-        "twin run and the metadata equations.",
+        "twin run and the metadata equations; two pairs of real chain processes exchanging at every proposal (every stored misfit against the chain's own target).",
    note="Trusted: Coq kernel; harness; h5py/numpy.load store and return float64 bits. Metadata equations (write index, acceptance rate, names) are "
         "checked on the implementation, not derived from a model of h5py.",
    technique="Coq proof (induction on the event stream, thinning arithmetic) + co-execution of complete runs", ref="5/C07"),
